@@ -175,9 +175,7 @@ def check(case):
     if not rec.ok:
         DEGRADED.add("no per-step snapshots (_update_post_selection not wrappable)")
     _, exc = sel.fit_quiet(s, X, y)
-    if exc is not None:
-        if isinstance(exc, ValueError):
-            return r.skip("fit rejected the configuration with ValueError")
+    if exc is not None:  # every configuration of this alphabet is admissible
         return r.fail("crash:%s" % type(exc).__name__, repr(exc))
 
     idx = [int(i) for i in np.asarray(s.selected_idx_)]
